@@ -224,7 +224,7 @@ def made_by(ex, v):
     ref = v.arg(0)
     kinds = []
     for e in ex.events:
-        if e[0] == 'write' and L.simp(e[3]).eq(ref) and e[2] not in kinds:
+        if e[0] == 'write' and ex.same(e[3], ref) and e[2] not in kinds:
             kinds.append(e[2])
     return '+'.join(kinds) if kinds else 'pre-existing'
 
@@ -288,7 +288,7 @@ class Values(Family):
         ex.prove('C02:%s:result-is-plain-data' % fname(ex), ['C02'], parts['C02'], watch)
         ex.prove('C17:%s:result-never-aliases-the-tree' % fname(ex), ['C17'], parts['C17'], watch)
         ex.prove('C10:%s:builtin-table-does-not-escape' % fname(ex), ['C10'], parts['C10'], watch)
-        ex.prove('C03:%s:result-within-cap[%s]' % (fname(ex), made), ['C03'], parts['C03'], watch)
+        ex.prove('C03:%s:result-within-cap[%s]' % (fname(ex), made), ['C03'], parts['C03'], watch, soft=True)
 
     def on_event(self, ex, ev):
         kind = ev[0]
@@ -301,15 +301,15 @@ class Values(Family):
             info = {'watch': {'old_len': old_len, 'new_len': new_len, 'target': ref}}
             # C03: TSI-6 for containers the program can already see; containers this activation
             # allocated are checked where they escape (returned, stored, handed to a callable)
-            ex.prove('C03:%s:length-within-cap-after-%s' % (fn, wkind), ['C03'], z3.Or(fresh, new_len <= CAP), info)
+            ex.prove('C03:%s:length-within-cap-after-%s' % (fn, wkind), ['C03'], z3.Or(fresh, new_len <= CAP), info, soft=True)
             # C02: TSI-7 stored values are plain
             for sv in stored:
                 ex.prove('C03:%s:stored-container-within-cap[%s of %s]' % (fn, wkind, made_by(ex, sv)), ['C03'],
-                         langval_parts(ex, sv)['C03'], {'watch': {'stored': sv}})
+                         langval_parts(ex, sv)['C03'], {'watch': {'stored': sv}}, soft=True)
                 ex.prove('C02:%s:stores-only-plain-data[%s]' % (fn, wkind), ['C02'], L.tag_plain(sv),
-                         {'watch': {'stored': sv}})
+                         {'watch': {'stored': sv}}, soft=True)
                 ex.prove('C17:%s:stores-no-tree-owned-list[%s]' % (fn, wkind), ['C17'],
-                         langval_parts(ex, sv)['C17'], {'watch': {'stored': sv}})
+                         langval_parts(ex, sv)['C17'], {'watch': {'stored': sv}}, soft=True)
             if what == 'list':
                 base_kind = wkind.split('<')[0]
                 elts = L.simp(ex.heap.lelts(ref)) if base_kind in ('list()', 'tuple()', 'display', 'sorted()', 'findall', 'split', 'slice-copy', 'repeat', 'concat', 'copy') else None
@@ -319,13 +319,13 @@ class Values(Family):
                     if org is not None:
                         o = org[1] if isinstance(org[1], str) else org[1][0]
                         ex.prove('C02:%s:bulk-elements-are-plain[%s]' % (fn, wkind), ['C02'], o in SAFE_ORIGINS,
-                                 {'origin': str(o)})
+                                 {'origin': str(o)}, soft=True)
                 # C17: TSI-5
                 ex.prove('C17:%s:never-writes-a-tree-owned-list[%s]' % (fn, wkind), ['C17'],
-                         z3.Or(fresh, z3.Not(L.node_owned(ref))), info)
+                         z3.Or(fresh, z3.Not(L.node_owned(ref))), info, soft=True)
             # C13: W1
             if self.role == 'builtin' and self.is_mutator is False:
-                ex.prove('C13:%s:writes-only-objects-it-allocated[%s]' % (fn, wkind), ['C13'], fresh, info)
+                ex.prove('C13:%s:writes-only-objects-it-allocated[%s]' % (fn, wkind), ['C13'], fresh, info, soft=True)
         elif kind == 'unknown_call':
             fn = fname(ex)
             ex.prove('C02:%s:no-unmodelled-call[%s]' % (fn, ev[1]), ['C02'], False, {'call': ev[1]})
